@@ -177,6 +177,13 @@ void pbt_run(const Case& cs, Ctx& ctx) {
       Variant c(*v[i]);
       if (!(c == *v[i]) || !(*v[i] == c) || (c != *v[i])) fail(ctx, "mismatch:copy-not-equal", path + ": a fresh copy does not compare equal");
       cmp(ctx, c, m[i], path + "(copy)");
+      if (isContainerOrString(m[i])) {
+        // a copy that has been detached from the shared payload by a mutable access (without any modification) is still a copy
+        Variant c2(*v[i]);
+        switch (m[i].t) { case Variant::listType: (void)c2.toList(); break; case Variant::arrayType: (void)c2.toArray(); break; case Variant::mapType: (void)c2.toMap(); break; default: (void)c2.toString(); }
+        if (!(c2 == *v[i]) || !(*v[i] == c2) || (c2 != *v[i])) fail(ctx, "mismatch:detached-copy-not-equal", path + ": a copy detached by an unmodifying mutable access does not compare equal");
+        cmp(ctx, c2, m[i], path + "(detached copy)");
+      }
       if (depthOf(m[i]) >= 2) ctx.label("depth>=2");
     }
   };
